@@ -93,7 +93,16 @@ def run(args):
     chk = common.Check('C03', 'exploration', args.tier)
     k = 1 if args.tier == 'quick' else 2
     fams = base.families_for(args.tier, args.families, quick=('S0', 'S1', 'S2', 'S4', 'S5'), thorough=('S0', 'S1', 'S2', 'S3', 'S4', 'S5', 'S6'))
-    stats, distinct, samples = base.run_sweep(chk, args, make_worker(k), fams=fams)
+    # deviation bound 2 over the quick shape corpus; the additional thorough-only shapes (all S1 roles x tagging modes, S3, S6) get bound 1
+    stats, distinct, samples = base.run_sweep(chk, args, make_worker(k), fams=[f for f in fams if f != 'S6'] if args.tier != 'quick' else fams, shape_tier='quick')
+    if args.tier != 'quick':
+        from gen import typegen
+        extra = [c for c in typegen.cases('thorough', ['S1', 'S3', 'S6'])]
+        st2, d2, s2 = base.run_sweep(chk, args, make_worker(1, xml=False), cases=extra, workname='sw-C03b-%d' % __import__('os').getpid())
+        for kk, vv in st2.items():
+            stats['extra:' + kk] = vv
+        stats['evaluations'] += st2['evaluations']
+        distinct |= d2
     cov = dict(evaluations=stats['evaluations'], distinct_nontrivial=len(distinct),
                rule='for every (type,value) of families %s: all encodings with <= %d non-canonical choices produced by the reference encoders '
                     '(BER: length forms, constructed strings, SET order, DEFAULT present, TRUE octet, unknown extensions; UPER/OER: BASIC freedoms, '
